@@ -753,13 +753,17 @@ end Rs
 '''
 
 
-def translate(items, namespace='Ruint.Gen'):
-    """items: list of dicts {file, fn, lean, self_ty?, key?}; returns (lean source, errors)"""
-    fns = {}
-    out = ['/-! GENERATED by tools/rs2lean.py from the Rust sources of /repo — do not edit. -/\n', PRELUDE,
+def translate(items, namespace='Ruint.Gen', imports=('Ruint.Gen.Prelude',), fns=None, only_group=None):
+    """items: list of dicts {file, fn, lean, self_ty?, key?, group?}; returns (lean source, errors).
+    `fns` carries the signatures of functions translated in earlier groups."""
+    fns = {} if fns is None else fns
+    out = [''.join('import %s\n' % i for i in imports),
+           '/-! GENERATED by tools/rs2lean.py from the Rust sources of /repo — do not edit. -/\n',
            'namespace %s\n' % namespace]
     errors = []
     for it in items:
+        if only_group is not None and it.get('group', 'core') != only_group:
+            continue
         try:
             src = open(it['file']).read()
             text = extract_fn(src, it['fn'])
@@ -794,20 +798,39 @@ def default_items(repo):
         {'file': a + 'mod.rs', 'fn': 'split', 'lean': 'dw_split', 'self_ty': 'u128', 'key': 'u128::split'},
         {'file': a + 'ops.rs', 'fn': 'adc', 'lean': 'adc'},
         {'file': a + 'ops.rs', 'fn': 'sbb', 'lean': 'sbb'},
-        {'file': a + 'mul_redc.rs', 'fn': 'carrying_mul_add', 'lean': 'carrying_mul_add'},
-        {'file': a + 'mul_redc.rs', 'fn': 'carrying_double_mul_add', 'lean': 'carrying_double_mul_add'},
-        {'file': a + 'div/reciprocal.rs', 'fn': 'mul_hi', 'lean': 'mul_hi'},
-        {'file': a + 'div/reciprocal.rs', 'fn': 'muladd_hi', 'lean': 'muladd_hi'},
-        {'file': a + 'div/reciprocal.rs', 'fn': 'reciprocal_mg10', 'lean': 'reciprocal_mg10', 'aliases': ['reciprocal']},
-        {'file': a + 'div/reciprocal.rs', 'fn': 'reciprocal_2_mg10', 'lean': 'reciprocal_2_mg10', 'aliases': ['reciprocal_2']},
-        {'file': a + 'div/small.rs', 'fn': 'div_2x1_mg10', 'lean': 'div_2x1_mg10', 'aliases': ['div_2x1']},
-        {'file': a + 'div/small.rs', 'fn': 'div_3x2_mg10', 'lean': 'div_3x2_mg10', 'aliases': ['div_3x2']},
+        {'file': a + 'mul_redc.rs', 'fn': 'carrying_mul_add', 'lean': 'carrying_mul_add', 'group': 'redc'},
+        {'file': a + 'mul_redc.rs', 'fn': 'carrying_double_mul_add', 'lean': 'carrying_double_mul_add', 'group': 'redc'},
+        {'file': a + 'div/reciprocal.rs', 'fn': 'mul_hi', 'lean': 'mul_hi', 'group': 'div'},
+        {'file': a + 'div/reciprocal.rs', 'fn': 'muladd_hi', 'lean': 'muladd_hi', 'group': 'div'},
+        {'file': a + 'div/reciprocal.rs', 'fn': 'reciprocal_mg10', 'lean': 'reciprocal_mg10', 'aliases': ['reciprocal'], 'group': 'div'},
+        {'file': a + 'div/reciprocal.rs', 'fn': 'reciprocal_2_mg10', 'lean': 'reciprocal_2_mg10', 'aliases': ['reciprocal_2'], 'group': 'div'},
+        {'file': a + 'div/small.rs', 'fn': 'div_2x1_mg10', 'lean': 'div_2x1_mg10', 'aliases': ['div_2x1'], 'group': 'div'},
+        {'file': a + 'div/small.rs', 'fn': 'div_3x2_mg10', 'lean': 'div_3x2_mg10', 'aliases': ['div_3x2'], 'group': 'div'},
     ]
+
+
+GROUPS = [('core', 'Words', ('Ruint.Gen.Prelude',)),
+          ('redc', 'WordsRedc', ('Ruint.Gen.Words',)),
+          ('div', 'WordsDiv', ('Ruint.Gen.Words',))]
+
+
+def translate_all(repo):
+    """-> {module name: lean source}, errors"""
+    fns = {}
+    files = {'Prelude': PRELUDE}
+    errors = []
+    items = default_items(repo)
+    for g, modname, imports in GROUPS:
+        code, errs = translate(items, imports=imports, fns=fns, only_group=g)
+        files[modname] = code
+        errors += errs
+    return files, errors
 
 
 if __name__ == '__main__':
     repo = sys.argv[1] if len(sys.argv) > 1 else '/repo'
-    code, errs = translate(default_items(repo))
-    sys.stdout.write(code)
+    files, errs = translate_all(repo)
+    for k, v in files.items():
+        sys.stdout.write('-- ==== %s ====\n%s\n' % (k, v))
     for e in errs:
         sys.stderr.write('ERROR ' + e + '\n')
